@@ -24,7 +24,7 @@ MANIFEST = {
                  'lemma; z3/cvc5; finite-scope counter-models replayed natively; brute-force triple-loop oracle as bounded stand-in',
 }
 UNITS = ['unit_uniqify', 'unit_code_injective', 'unit_states_array', 'unit_between_species', 'unit_dep_ffill', 'unit_dep_bfill', 'unit_dep_prev_next']
-BOUNDED = ['bounded_rdf']
+BOUNDED = ['bounded_rdf', 'bounded_purity']
 META = {
     'clauses': {'C11.uniq': 'P', 'C11.code': 'P (injectivity lemma) + B (_get_states name table)', 'C11.sem': 'P given C11.uniq and C03 prev/next',
                 'C11.part': 'B', 'C11.pair': 'P (formula, bins) + A (np.histogram) ; symmetry B'},
@@ -424,3 +424,10 @@ def bounded_rdf(tier, seed):
         if r['reproduced']:
             st.violation('rdf', r['detail'], 'verif.props.c11:replay_rdf', inp)
     return st.result()
+
+
+# generic purity stand-in (arguments unchanged, second call equal, fresh call equal) over this property's API calls
+from verif.native.purity import make_bounded as _make_purity  # noqa: E402
+from verif.props.purity_reg import REG as _PURITY_REG  # noqa: E402
+PURITY = _PURITY_REG['C11']
+bounded_purity = _make_purity('C11', PURITY)
